@@ -367,8 +367,8 @@ def p_c17(facts, rep, tier):
         "C17 (write discipline): every mutating file primitive (write, resize, unlink, create, open with create/truncate) sits in a function "
         "allowed for its file class (W1); inside the ln/bbn page writers a page number can only originate from SyncAllocator::allocate - no "
         "page-number reads from parameters/captures, constructions, casts or other repo calls returning page numbers (W2); free-list mutators are "
-        "callable only from SyncFinisher::finish and allocate uses the clean free list only (W3); rollback segments are opened append-only (W4); "
-        "hash-table writes, WAL truncation and log pruning start only post-meta (O3). That the allocator's numbers are free in the previous image "
+        "callable only from SyncFinisher::finish and allocate uses the clean free list only (W3); rollback segments are opened append-only (W4); the value files are resized at one site only, the growth helper (W5); "
+        "hash-table writes, WAL truncation and log pruning start only post-meta (O3), and the meta write itself is followed by its fsync before it returns (O4: post-meta means post-durable). That the allocator's numbers are free in the previous image "
         "(free-list arithmetic) is not decided."
     )
     ctx = sync_ctx(facts)
@@ -377,7 +377,9 @@ def p_c17(facts, rep, tier):
     n2 += syncorder.w2_freelist(ctx, rep)
     n3 = syncorder.w3(ctx, rep)
     n4 = syncorder.w4(ctx, rep)
+    syncorder.w5(ctx, rep)
     n5 = syncorder.o3(ctx, rep)
+    syncorder.o4(ctx, rep)
     rep.floor("W1 mutating primitive sites", n1, 21)
     rep.floor("O3 post-meta events", n5, 4)
     _sync_common(rep, ctx)
